@@ -208,4 +208,4 @@ impl<Node> NodesTracker<Node> {
 
 #[cfg(kani)]
 #[path = "/verif/units/kani/beatree_update.rs"]
-mod verif_kani;
+pub(crate) mod verif_kani;
